@@ -151,6 +151,24 @@ def _embeddings(name, lang, code, top_only):
     out.append(("in-method", "class WrapperCls:\n    def wrapper_method(self):\n" + _indent(code, 2), [2]))
     out.append(("in-if", "if feature_enabled:\n" + _indent(code, 1), [1]))
     out.append(("two-deep", "def outer_fn():\n    def inner_fn():\n" + _indent(code, 2), [2]))
+    # every kind of block a definition or statement can legally live in
+    out.append(("in-except-handler", "try:\n    import fastlib\nexcept ImportError:\n" + _indent(code, 1), [3]))
+    out.append(("in-try-body", "try:\n" + _indent(code, 1) + "\nexcept ImportError:\n    pass\n", [1]))
+    out.append(("in-finally", "try:\n    prepare()\nfinally:\n" + _indent(code, 1), [3]))
+    out.append(("in-else", "if legacy_mode:\n    pass\nelse:\n" + _indent(code, 1), [3]))
+    out.append(("in-with", "with resource() as handle:\n" + _indent(code, 1), [1]))
+    out.append(("in-for-loop", "for batch in batches:\n" + _indent(code, 1), [1]))
+    out.append(("in-while-loop", "while pending:\n" + _indent(code, 1), [1]))
+    # only for linters whose subject is a statement or loop, not the function that holds it
+    body = _function_body(code) if canon in ("perf", "lbyl", "collection-pipeline", "improper-logging") else None
+    if body:
+        # the example's statements (without its def line) as the body of an enclosing loop
+        out.append(("body-in-for-loop", "def wrapper_fn(batches, items):\n    for batch in batches:\n" + _indent(body[0], 2) + "\n    return batches\n", [2 - body[1]]))
+        out.append(("body-in-while-loop", "def wrapper_fn(pending, items):\n    while pending:\n" + _indent(body[0], 2) + "\n        pending -= 1\n    return pending\n", [2 - body[1]]))
+    out.append(("in-match-case", "match kind:\n    case \"primary\":\n" + _indent(code, 2), [2]))
+    out.append(("in-init-method", "class HolderCls:\n    def __init__(self):\n" + _indent(code, 2), [2]))
+    out.append(("in-property", "class HolderCls:\n    @property\n    def view(self):\n" + _indent(code, 2), [3]))
+    out.append(("in-fluent-method", "class HolderCls:\n    def chain(self):\n" + _indent(code, 2) + "\n        return self\n", [2]))
     c2, c3 = _rename_copy(code, 2), _rename_copy(code, 3)
     out.append(("twice", code + "\n\n" + c2, [0, n + 2]))
     out.append(("three-times", code + "\n\n" + c2 + "\n\n" + c3, [0, n + 2, 2 * (n + 2)]))
@@ -164,6 +182,26 @@ def _embeddings(name, lang, code, top_only):
         other = "\n".join(f"{nm} = []" for nm in names) + "\n\n\ndef unrelated_collect(values):\n" + "".join(f"    {nm} = []\n    for value in values:\n        {nm} += [value]\n" for nm in names[:3]) + "    return values\n"
         out.append(("beside-unrelated-modules", code, [0], {"aaa_first.py": other, "zzz_last.py": other}))
     return out
+
+
+def _function_body(code):
+    """(dedented body statements of the example's single top-level function without its
+    top-level return statements, number of lines dropped above them) or None."""
+    try:
+        tree = ast.parse(code)
+    except (SyntaxError, ValueError):
+        return None
+    fns = [n for n in tree.body if isinstance(n, ast.FunctionDef)]
+    if len(fns) != 1 or len(tree.body) != 1:
+        return None
+    stmts = [st for st in fns[0].body if not isinstance(st, ast.Return) and not (isinstance(st, ast.Expr) and isinstance(getattr(st, "value", None), ast.Constant))]
+    if not stmts:
+        return None
+    lines = code.split("\n")
+    first, last = stmts[0].lineno, max(getattr(n, "end_lineno", 0) or 0 for st in stmts for n in ast.walk(st))
+    seg = lines[first - 1 : last]
+    ind = min(len(ln) - len(ln.lstrip()) for ln in seg if ln.strip())
+    return "\n".join(ln[ind:] for ln in seg), first - 1
 
 
 def _assigned_names(code):
@@ -304,6 +342,10 @@ def run_item(item) -> Acc:
                     break
         else:
             acc.nt((e["id"], emb, "acceptable"))
+            if single and emb not in ("as-is", "filler-after", "filler-before"):
+                # only what is reported INSIDE the embedded example counts (the wrapper the
+                # embedding adds - e.g. a fluent method - may legitimately be reported itself)
+                mine = [t for t in mine if any(o + (off or 0) < t[2] <= o + (off or 0) + nlines + 1 for o in offsets)]
             if mine:
                 fails.append((emb, "acceptable-example-reported", case, "not reported by " + name, [list(t[:3]) + [t[4][:80]] for t in mine][:3]))
     asis = [f for f in fails if f[0] == "as-is"]
